@@ -54,8 +54,10 @@ pub struct Note {
 
 /// file names of the two documents.  Beside the plain pair there are names that need percent
 /// encoding in a URI (non-ASCII letters, a blank) and names whose order differs between the raw
-/// and the encoded spelling: the server must identify a document by its decoded path, like `check`
-pub const NAME_SETS: &[[&str; 2]] = &[["a.st", "b.st"], ["\u{fc}_pump.st", "valve.st"], ["my file.st", "b.st"], ["Z.st", "a.st"], ["\u{e4}.st", "\u{f6}.st"], ["x%y.st", "b.st"]];
+/// and the encoded spelling: the server must identify a document by its decoded path, like `check`;
+/// and names with an upper-case, another or no extension: `check` reads every file of a directory,
+/// so whatever the editor shows the server is a source like any other
+pub const NAME_SETS: &[[&str; 2]] = &[["a.st", "b.st"], ["\u{fc}_pump.st", "valve.st"], ["my file.st", "b.st"], ["Z.st", "a.st"], ["\u{e4}.st", "\u{f6}.st"], ["x%y.st", "b.st"], ["A.ST", "b.st"], ["types.St", "user.st"], ["prog.iec", "lib.IEC"], ["noext", "b.st"], ["a.txt", "b.st"]];
 
 fn percent_encode(name: &str) -> String {
     let mut out = String::new();
